@@ -49,7 +49,7 @@ BUF_FNS = {  # self.buffer.<name>(..) -> (Lean name, return type)
 }
 WHILE_FUEL = {"align_to": "alignment"}          # loop bound per function (at most `alignment` int3 bytes are needed)
 SKIP_FNS = {(ASSEMBLER, "new"): "constructor; modelled by Asm.new in X64/Prelude.lean",
-            (ASSEMBLER, "finalize"): "returns the buffer by value; modelled by `finalize` in X64/Prelude-level glue (resolve_jumps; align_to)"}
+            (ASSEMBLER, "finalize"): "returns the buffer by value; modelled as `finalizeM` (resolve_jumps; align_to) in Drivers/C07.lean"}
 
 
 def T(name, *args):
@@ -972,7 +972,7 @@ def gen_dispatch_rust(g, methods):
     return "\n".join(out) + "\n"
 
 
-def gen_theorems(g, methods, specs, nmods=8):
+def gen_theorems(g, methods, specs, nmods=14):
     """register-only methods -> `∀ avx regs, okOrRefused … = true := by decide +kernel`"""
     thms = []
     for m in methods:
@@ -985,27 +985,55 @@ def gen_theorems(g, methods, specs, nmods=8):
         guard = avx_guard(g, n)
         binders = []
         margs = []
+        nargs = []
+        lists = []
+        ins = []
+        vs = []
         for i, (k, pn) in enumerate(zip(m["sig"], m["params"])):
             v = ident(pn)
+            vs.append(v)
             if k == "r":
                 binders.append("(%s : Fin 16)" % v)
                 margs.append("(R %s)" % v)
+                nargs.append("(Rn %s)" % v)
+                lists.append("regs")
+                ins.append("in16")
             elif k == "x":
                 binders.append("(%s : Fin 16)" % v)
                 margs.append("(X %s)" % v)
+                nargs.append("(Xn %s)" % v)
+                lists.append("regs")
+                ins.append("in16")
             else:
                 binders.append("(%s : Fin %d)" % (v, len(g.enums["Condition"])))
                 margs.append("(C %s)" % v)
+                nargs.append("(Cn %s)" % v)
+                lists.append("conds")
+                ins.append("in28")
         a = " ".join(margs)
+        na = " ".join(nargs)
         gd = {"avx": "avx", "!avx": "(!avx)", "true": "true"}[guard]
         cost = 1
         for k in m["sig"]:
             cost *= 28 if k == "c" else 16
-        stmt = ("theorem %s_ok : ∀ (avx : Bool) %s, okOrRefused (enc avx (%s)) %s (%s) = true := by\n  decide +kernel"
-                % (n, " ".join(binders), " ".join([ident(n), a]).strip(), gd, " ".join(["Spec.%s" % n, a]).strip()))
+        body = "okOrRefused (enc avx (%s)) %s (%s)" % (" ".join([ident(n), na]).strip(), gd, " ".join(["Spec.%s" % n, na]).strip())
+        fold = "bools.all fun avx => " + "".join("%s.all fun %s => " % (l, v) for l, v in zip(lists, vs)) + body
+        proof = "inBool h avx"
+        for f, v in zip(ins, vs):
+            proof = "%s (%s) %s" % (f, proof, v)
+        proof = "inBool %s_all avx" % n
+        for f, v in zip(ins, vs):
+            proof = "%s (%s) %s" % (f, proof, v)
+        stmt = ("theorem %s_all : (%s) = true := by\n  decide +kernel\n\n%s\n"
+                "theorem %s_ok : ∀ (avx : Bool) %s, okOrRefused (enc avx (%s)) %s (%s) = true :=\n"
+                "  fun avx %s => %s"
+                % (n, fold, "@@DOC@@", n, " ".join(binders), " ".join([ident(n), a]).strip(), gd,
+                   " ".join(["Spec.%s" % n, a]).strip(), " ".join(vs), proof))
+        stmt = stmt.replace("∀ (avx : Bool) ,", "∀ (avx : Bool),").replace("fun avx  =>", "fun avx =>")
         doc = ("/-- `%s`: for both values of `has_avx2` and every register operand the emitted bytes decode to exactly "
                "the requested instruction with nothing left over (guard `%s`), and the call is refused otherwise. -/" % (n, guard))
-        thms.append((cost, n, doc + "\n" + stmt))
+        stmt = "/-- executable form of `%s_ok`: the same statement as a fold over literal operand lists -/\n" % n + stmt.replace("@@DOC@@", doc)
+        thms.append((cost, n, stmt))
     # balance modules by cost
     mods = [[] for _ in range(nmods)]
     load = [0] * nmods
@@ -1018,6 +1046,9 @@ def gen_theorems(g, methods, specs, nmods=8):
         body = ["import DoraModel.X64.Check",
                 "/-! GENERATED by tools/rs2lean_x64.py from dora-asm/src/x64.rs — do not edit.",
                 "One theorem per register-only public method of `AssemblerX64` (C07, sentence 1). -/",
+                "-- the 14 theorem modules are built in parallel by lake; elaborating the theorems of one module on several",
+                "-- threads as well only makes the kernel evaluations compete for the allocator (measured: 6x slower)",
+                "set_option Elab.async false",
                 "namespace Dora.X64.C07", "open Dora.X64", ""]
         for n, t in sorted(ms):
             body.append(t)
